@@ -245,11 +245,13 @@ class MacroProcessor:
         if name in self._macros:
             expansion = self._macros[name]
 
-            # Substitute arguments: $1, $2, etc.
-            for i, arg in enumerate(args, 1):
-                expansion = expansion.replace(f"${i}", arg)
+            # Substitute arguments: $1, $2, etc. The whole number is matched, so that
+            # $1 is not substituted inside $10, $11, ...
+            def substitute(match: "re.Match[str]") -> str:
+                index = int(match.group(1))
+                return args[index - 1] if 1 <= index <= len(args) else match.group(0)
 
-            return expansion
+            return re.sub(r"\$(\d+)", substitute, expansion)
 
         # Unknown macro - leave as is (will be handled as error later)
         return f"${{{call}}}"
